@@ -180,6 +180,23 @@ def check_dask(case, ctx):
             except Exception:  # noqa: BLE001 - the probe is advisory
                 pass
         msg = ops.compare(ra, rb, tol, fam, "%s chunks=%s sched=%s vs in-memory" % (name, case["chunks"], case["sched"]), atol_rel=(1e-7 if fam in ("width", "widthf", "peakwidth") else None))
+        if fam == "fit" and msg:
+            # a three-parameter fit to a handful of frequencies can fail or succeed on the last bit of its input (the covariance
+            # test, an iteration limit, a parameter on its bound): such records are not judged. Well-posed = at least 6
+            # frequencies, the in-memory fit exists, gamma away from its bounds [0.1, 20] and fp inside the grid
+            try:
+                fgrid = np.asarray(x.freq.values, dtype=float)
+                g_, p_ = np.asarray(ra["gamma"].values, dtype=float), np.asarray(ra["fp"].values, dtype=float)
+                well = np.isfinite(g_) & (g_ > 0.105) & (g_ < 19.0) & (p_ >= fgrid[1]) & (p_ <= fgrid[-2]) & (len(fgrid) >= 6)
+                if not well.all():
+                    import xarray as xr
+
+                    mask = xr.DataArray(well, dims=ra["gamma"].dims)
+                    ra, rb = ra.where(mask), rb.where(mask)
+                    ctx.label("fit-ill-posed(masked)")
+                    msg = ops.compare(ra, rb, tol, fam, "%s chunks=%s sched=%s vs in-memory" % (name, case["chunks"], case["sched"]))
+            except Exception:  # noqa: BLE001
+                pass
         if msg and fam == "fit":
             # a least-squares fit is judged by what it minimises: where the peak region is not sampled by the grid a parameter
             # (gamma) is not identifiable and any value gives the same misfit; the dask result must fit as well as the in-memory one
